@@ -132,3 +132,19 @@ claim('C18', 'bounded symbolic execution over call histories: menu operations wi
       'are pairwise disjoint; no other tree\'s snapshot can change (z3); to_bytes / == / repr leave the tree unchanged and '
       'to_bytes is repeatable.',
       BASE_NOTE + ' Aliasing does not depend on data; the history length is the bound of the claim.', 'DESIGN.md section 4, C18')
+
+claim('C05', 'bounded symbolic execution of the full pipeline tree -> DiffXDOMWriter -> DiffXWriter -> bytes -> DiffXReader -> DiffXDOMReader -> tree with symbolic section content; equality with the documented normalisation and with REF_WRITE decided by z3',
+      'Trees built through the public constructors/typed attributes (one change, 1-2 files; one section per run with '
+      'symbolic content of 1..3 code points / 1..4 bytes quick, 1..4 / 1..5 thorough; its options enumerated; the '
+      'surrounding encodings and present/absent sections from a profile catalogue) are serialised and parsed back by the '
+      'real code: same shape and, section by section, options and content equal to the documented normalisation; the '
+      'bytes equal REF_WRITE over the calls the tree implies. With a recording writer_cls the call sequence equals '
+      'REF_DOM_CALLS and the tree is not modified.',
+      BASE_NOTE + ' Metadata concrete.', 'DESIGN.md section 4, C05')
+
+claim('C06', 'bounded symbolic execution of parse -> serialise (-> parse -> serialise) through the real object model on canonical files (writer outputs with symbolic content) and on foreign-style generated files',
+      'Canonical: for every b produced by the real writer from the symbolic trees of C05, from_bytes(b).to_bytes() == b '
+      '(z3, byte for byte). Foreign: files from the specification-derived generator (permuted options, blank lines, '
+      'CRLF headers) with a symbolic preamble / diff section: when the object model accepts the file, re-serialising '
+      'succeeds, the section content is carried, and the result is a fixed point of parse+serialise.',
+      BASE_NOTE, 'DESIGN.md section 4, C06')
